@@ -105,9 +105,16 @@ def euler_vars(ctx, rng, idx):
     n = mesh.ncell
     gen.maybe_decoy(rng)
     rho, V, p = _euler_states(rng, n, gam, kind == "euler2d")
-    ctx.describe(model=kind, gamma=gam, ncell=n, rho=rho[:4], V=np.asarray(V)[..., :4], p=p[:4])
+    intdata = bool(rng.random() < 0.1)
+    if intdata:          # a user typing 1 instead of 1.: integer-typed state arrays (the field keeps the type it is given)
+        it = np.int64 if rng.random() < 0.7 else np.int32
+        rho, p = rng.integers(1, 6, n).astype(it), rng.integers(1, 7, n).astype(it)
+        V = rng.integers(-3, 4, (2, n) if kind == "euler2d" else n).astype(it)
+    ctx.describe(model=kind, gamma=gam, ncell=n, rho=rho[:4], V=np.asarray(V)[..., :4], p=p[:4], integer_typed=intdata)
     prim = [rho, V, p]
     cons = model.prim2cons([x.copy() for x in prim])
+    if intdata:
+        rho, V, p = (np.asarray(x, float) for x in (rho, V, p))
     defs, cond = definitions(kind, gam, rho, V, p, section)
     # round trip
     back = model.cons2prim([np.array(x, copy=True) for x in cons])
